@@ -636,6 +636,8 @@ type Listener struct {
 	// is there to be taken) fail with a temporary error instead, leaving the connection queued.
 	Transient []int
 	attempts  int
+	// OwnClosedErr: Accept on the closed listener fails with an error that is not net.ErrClosed.
+	OwnClosedErr bool
 }
 
 //go:norace
@@ -662,6 +664,10 @@ func (o *acceptOp) Done(now time.Time) {
 	l := o.l
 	if l.closed {
 		o.err = ErrClosed
+		if l.OwnClosedErr {
+			// a listener that is not the net package's (in-memory, tunnelled, ...) has an error of its own for this
+			o.err = errListenerClosed
+		}
 		return
 	}
 	l.attempts++
@@ -677,6 +683,8 @@ func (o *acceptOp) Done(now time.Time) {
 	l.backlog = l.backlog[1:]
 	l.Accepts++
 }
+
+var errListenerClosed = errors.New("simnet: listener closed")
 
 //go:norace
 func (l *Listener) Accept() (net.Conn, error) {
